@@ -103,4 +103,8 @@ DrainD(tt, k) == IF k = 0 THEN <<>>
 Probe(tt) == LET r == Proc(tt, <<>>) IN <<Step(<<"proc">>, r.obs \o Pool(r.t))>> \o DrainD(r.t, 5)
 EmitEdge == hist = <<>> \/ PrintT(<<"EDGE", ToJson([c |-> Max, s |-> prev, e |-> hist[Len(hist)], d |-> ViewG, p |-> Probe(t)])>>)
 EmitWalk == Len(hist) < WalkLen \/ (PrintT(<<"WALK", ToJson([c |-> Max, h |-> hist, p |-> Probe(t)])>>) /\ FALSE)
+\* VIEW of the model-checking configurations: TLC evaluates invariants only on states it has not seen before, and "seen" is
+\* decided on the VIEW; a step verdict kept in a ghost variable must therefore be part of it, or a violating edge INTO A KNOWN
+\* STATE would be discarded unexamined (the generation configurations keep the plain View: the verdict is not behaviour)
+ViewM == <<View, bad>>
 =============================================================================
